@@ -134,6 +134,13 @@ func (g *G) stmt(bd int) []hs.Stmt {
 	case r < 91 && bd > 0 && g.c.Throws:
 		// try / catch statement
 		tr := &hs.Try{CatchVar: g.fresh("e"), T: hs.TNull}
+		if vs := g.visible(); len(vs) > 0 && g.chance("catchVarShadows", 15) {
+			// the catch variable is named like a visible local: it exists in the handler only
+			if v := vs[g.pick("catchShadowVar", len(vs))]; !v.global {
+				tr.CatchVar = v.name
+				g.feat("catch-var-shadows")
+			}
+		}
 		g.push()
 		body := &hs.Block{T: hs.TNull}
 		n := g.intn("nTry", 1, 3)
@@ -821,8 +828,21 @@ func (g *G) fnDef(name string, isMain bool) hs.FnDef {
 			g.feat("singleton-param")
 		}
 		np := g.intn("nParams", 0, 3)
+		// sometimes the signature of an earlier function is reused (function values of one type can then stand
+		// in for each other, e.g. a local named like one function that holds another)
+		var twin *fnInfo
+		if len(g.fns) > 0 && g.chance("twinSignature", 25) {
+			c := g.fns[g.pick("twinOf", len(g.fns))]
+			if !c.rec && !c.single {
+				twin = &c
+				np = len(c.params)
+			}
+		}
 		for i := 0; i < np; i++ {
 			pt := g.valueType()
+			if twin != nil {
+				pt = twin.params[i]
+			}
 			pn := fmt.Sprintf("p%d", i)
 			f.Params = append(f.Params, hs.Param{Name: pn, T: pt})
 			info.params = append(info.params, pt)
@@ -830,6 +850,9 @@ func (g *G) fnDef(name string, isMain bool) hs.FnDef {
 		}
 		if g.chance("hasRet", 75) {
 			f.Ret = g.valueType()
+		}
+		if twin != nil {
+			f.Ret = twin.ret
 		}
 		info.ret = f.Ret
 	}
